@@ -7,7 +7,7 @@ import datetime as _dt
 from sa import term as T
 from sa.interp import FuncRef, Interp, Opaque, SObj, SVar
 from sa.kernel import P, make_param
-from sa.load import AnalysisError, Repo, loc
+from sa.load import AnalysisError, Repo, loc, where_of
 from sa.report import Run
 from sa.scipp_model import Model
 from sa.term import Rat, Vec
@@ -107,7 +107,7 @@ def run(tier: str) -> Run:
 
     def check_fields(cls_name, rets, box, value_fields, parsed_obj=lambda v: v, index_fields=()):
         if not rets:
-            r2.fail(f'{cls_name}: round trip', loc(box.get('parser') or repo.func(SQW, '_try_parse_block')),
+            r2.fail(f'{cls_name}: round trip', (loc(box['parser']) if box.get('parser') else where_of(repo, SQW, '_try_parse_block', 'Sqw.read_data_block')),
                     {'problem': 'the parser cannot read what the serializer of this class writes',
                      'outcomes': [(o.kind, o.exc_type, o.where, [str(a)[:80] for a in getattr(o, 'exc_args', ())]) for o in outs_box[0]]},
                     key=f'{cls_name}:roundtrip')
@@ -134,7 +134,7 @@ def run(tier: str) -> Run:
                 if inst in seen:
                     continue
                 seen.add(inst)
-                r2.check(ok, inst, loc(box.get('parser') or repo.func(SQW, '_parse_line_proj_7_0')),
+                r2.check(ok, inst, (loc(box['parser']) if box.get('parser') else where_of(repo, SQW, '_parse_line_proj_7_0', 'Sqw.read_data_block')),
                          {'supplied': T.show(orig.term) + f' [{orig.unit!r}]' if isinstance(orig, SVar) else [T.show(x.term) for x in orig],
                           'read_back': desc}, key=inst)
             for f in index_fields:
@@ -148,7 +148,7 @@ def run(tier: str) -> Run:
                     ok, desc = same_value(got, orig)
                 else:
                     ok, desc = got == orig, repr(got)
-                r2i.check(ok, inst, loc(box.get('parser') or repo.func(SQW, '_parse_line_axes_7_0')), {'supplied': repr(orig) if not isinstance(orig, SVar) else T.show(orig.term), 'read_back': desc}, key=inst)
+                r2i.check(ok, inst, (loc(box['parser']) if box.get('parser') else where_of(repo, SQW, '_parse_line_axes_7_0', 'Sqw.read_data_block')), {'supplied': repr(orig) if not isinstance(orig, SVar) else T.show(orig.term), 'read_back': desc}, key=inst)
     seen: set = set()
 
     # ---- line_proj ----------------------------------------------------------------
@@ -186,7 +186,7 @@ def run(tier: str) -> Run:
         rets_i, outs_i, box_i = roundtrip(cname, int_fields, parser_name=pn, extra_parser_args=extra)
         lossy = [dict(e.detail, where=e.where) for o in outs_i for e in events(o, 'int-unit-conversion')]
         uniq = list({d['where']: d for d in lossy}.values())
-        r2d.check(not uniq and bool(rets_i), f'{cname}: integer scales / ranges / offsets', loc(repo.func(MODELS, '_serialize_multi_unit_array')),
+        r2d.check(not uniq and bool(rets_i), f'{cname}: integer scales / ranges / offsets', where_of(repo, MODELS, '_serialize_multi_unit_array', 'SqwLineAxes._serialize_to_dict'),
                   {'integer_unit_conversions': uniq[:2]}, key=f'{cname}:int-conversion')
 
     # ---- IX_sample, IX_source -----------------------------------------------------------
@@ -250,8 +250,6 @@ def af_rules(run, repo, tier):
     r4 = run.rule('R4', 'instrument and sample containers reference one shared object for every run (1-based indices)', 2)
     r5 = run.rule('R5', 'bytes decoded by the documented layout hold what was supplied: 1-based run ids, meV, radians, declared units of histogram metadata', 6)
     r6 = run.rule('R6', 'the package reader returns the supplied models: same values, units of the same physical dimension', 6)
-    bfi = repo.func(BUILD, '_PixWrap.write')
-    mfi = repo.func(BUILD, 'SqwBuilder._make_pix_metadata')
     sfi = repo.func(SQW, 'Sqw.read_data_block')
     pix_cfgs = [(0, 3), (1, 1), (5, 2), (5, 5), (5, 8), (12, 5), (12, 9), (10, 1)] + ([(n, c) for n in (2, 9, 10, 19) for c in (1, 3, 9, 10, 40)] if tier == 'thorough' else [])
     bad3: dict = {}
@@ -312,7 +310,7 @@ def af_rules(run, repo, tier):
                     bad3.setdefault('package reader returns the pixels', {'configuration': cfg, 'problem': f'{kind} {arr!r}'[:200]})
             else:
                 bad3.setdefault('package reader returns the pixels', {'configuration': cfg, 'problem': f'{kind} {sq}'[:200]})
-    for inst, where in (('pixel rows', loc(bfi)), ('pixel metadata', loc(mfi)), ('package reader returns the pixels', loc(repo.func(SQW, '_read_pix_block')))):
+    for inst, where in (('pixel rows', where_of(repo, BUILD, '_PixWrap.write', 'SqwBuilder.create')), ('pixel metadata', where_of(repo, BUILD, 'SqwBuilder._make_pix_metadata', 'SqwBuilder.create')), ('package reader returns the pixels', where_of(repo, SQW, '_read_pix_block', 'Sqw.read_data_block'))):
         r3.check(inst not in bad3, inst, where, bad3.get(inst, {'configurations': len(pix_cfgs)}), key=inst)
     for _ in range(3):
         r3.ok('configuration')
@@ -333,7 +331,7 @@ def af_rules(run, repo, tier):
         try:
             _decoded_content_rules(dec, sup, n_runs, cfg, repo, r4, r5)
         except (KeyError, IndexError, sqwfmt.FormatError) as ex:
-            r5.fail(f'decoded content [{cfg}]', loc(repo.func(MODELS, 'SqwIXExperiment._serialize_to_dict')),
+            r5.fail(f'decoded content [{cfg}]', where_of(repo, MODELS, 'SqwIXExperiment._serialize_to_dict', 'SqwIXExperiment.prepare_for_serialization'),
                     {'problems': [f'a documented field is missing or malformed on disk: {type(ex).__name__} {ex}']}, key='content')
         _reader_rules(wr, sup, n_runs, cfg, repo, r6, sfi)
 
@@ -353,7 +351,7 @@ def _decoded_content_rules(dec, sup, n_runs, cfg, repo, r4, r5):
                 probs.append(f'{len(objs)} stored objects, one shared object expected')
             if list(idx) != [1.0] * n_runs:
                 probs.append(f'indices on disk {idx}, expected {n_runs} references to object 1 (1-based)')
-            r4.check(not probs, f'{what} container [{cfg}]', loc(repo.func(BUILD, '_broadcast_unique_ref')), {'problems': probs}, key=what)
+            r4.check(not probs, f'{what} container [{cfg}]', where_of(repo, BUILD, '_broadcast_unique_ref', 'SqwBuilder.create'), {'problems': probs}, key=what)
         # R5 independent decode
         probs = []
         mh = sqwfmt.the_struct(dec[('', 'main_header')])
@@ -404,7 +402,7 @@ def _decoded_content_rules(dec, sup, n_runs, cfg, repo, r4, r5):
             disk_ok(proj[vec]['data'], sp_[vec], '1/angstrom', f'proj {vec}', probs)
         if dec[('data', 'nd_data')]['shape'] != DND_SHAPE:
             probs.append(f'histogram shape on disk {dec[("data", "nd_data")]["shape"]}, declared {DND_SHAPE}')
-        r5.check(not probs, f'decoded content [{cfg}]', loc(repo.func(MODELS, 'SqwIXExperiment._serialize_to_dict')), {'problems': probs[:4]}, key='content')
+        r5.check(not probs, f'decoded content [{cfg}]', where_of(repo, MODELS, 'SqwIXExperiment._serialize_to_dict', 'SqwIXExperiment.prepare_for_serialization'), {'problems': probs[:4]}, key='content')
         for _ in range(2):
             r5.ok('block')
 
